@@ -13,6 +13,9 @@ def main():
             if not ok:
                 bad += 1
                 print("SANY FAILED: %s\n%s" % (f, out[-1500:]))
+    import dectest
+    n = dectest.selftest()
+    print('Dec.tla self-test: %d cases ok' % n)
     w = common.import_wntr()
     print("setup ok: wntr %s from %s; spec modules parsed" % (w.__version__, w.__file__))
     return 2 if bad else 0
